@@ -660,6 +660,34 @@ def rule_recovery_noconsume(prog):
                         "parse then depends on where comments are written" % n_["m"], ("take", "peek"))
     if n_peek == 0:
         out.missing("TokenStream::fragment() uses in the token parsers")
+    # the five recovery parsers fail with the input they were given: whatever they consume in front of ignore_until (the
+    # statement recovery skips comments first) must not stay consumed when there is nothing to ignore
+    for rb, call, _la in recovery_sites(prog):
+        if rb["k"] == "closure":
+            continue
+        consuming_prefix = False
+        for x, parents in hir.walk(rb["body"]):
+            if x is not call:
+                continue
+            chain = list(parents) + [x]
+            for i_, pr in enumerate(chain[:-1]):
+                nxt = chain[i_ + 1]
+                if pr.get("k") == "Tup" and pr.get("es") and pr["es"][0] is not nxt and any(e_ is nxt for e_ in pr["es"]):
+                    # element of a tuple((..)) sequence that is not the first one
+                    if i_ > 0 and chain[i_ - 1].get("k") == "Call" and (hir.callee(chain[i_ - 1]) or "").endswith("sequence::tuple"):
+                        consuming_prefix = True
+                if pr.get("k") == "Call" and last(hir.callee(pr) or "") in ("pair", "preceded", "terminated", "separated_pair") and \
+                        len(pr["args"]) >= 2 and pr["args"][0] is not nxt and any(a_ is nxt for a_ in pr["args"][1:]):
+                    consuming_prefix = True
+        ids = _param_ids(rb)
+        if not consuming_prefix:
+            out.add(rb["d"], "a recovery parser that finds nothing to ignore fails with the input it was given", True, c.loc(call["sp"]), "", ("recover",))
+            continue
+        n_lits, ok = _error_inputs_ok(prog, rb, ids[0]) if ids and ids[0] is not None else (0, False)
+        out.add(rb["d"], "a recovery parser that finds nothing to ignore fails with the input it was given", n_lits > 0 and ok, c.loc(call["sp"]),
+                "the recovery consumes tokens (comments) in front of `ignore_until` and its failure carries the input behind them: "
+                "`expect` resumes there, so the comments - the doc comments of the next declaration - are swallowed and the "
+                "follow-up diagnostics move into the next declaration", ("recover",))
     # declaration keywords are consumed only by the declaration parsers and look_ahead::global_dec
     for kw, owner in (("proc", "ProcedureDeclaration"), ("type", "TypeDeclaration")):
         path = "spl_frontend::parser::keywords::" + ("r#type" if kw == "type" else kw)
@@ -1231,6 +1259,88 @@ def rule_reuse(prog):
                 "`input.advance(old length)` re-anchors the old node at the current location, but the location is only compared with "
                 "new_token_pos(start) by %s: when a predecessor shrank (its tail is now loose tokens) the location lies *before* the "
                 "node's tokens and the node is reused on top of foreign tokens" % (sorted(ops) or "nothing"), ("aligned",))
+    # ---- (relative): a reused node that is not wrapped in its own Reference keeps its stored range, which is relative to the start
+    # of the enclosing Reference: the reuse exit must also check that this relative start is still right
+    rel = False
+    for b in scope:
+        for cmp_ in hir.nodes(b["body"], "Binary"):
+            if cmp_["op"] not in ("==", "!="):
+                continue
+            sides = [cmp_["l"], cmp_["r"]]
+            has_ref = [any(x.get("k") == "Field" and x["name"] == "reference_pos" for x in hir.nodes(sd)) for sd in sides]
+            has_rng = [any(x.get("k") == "MethodCall" and x["m"] == "to_range" for x in hir.nodes(sd)) or
+                       any(x.get("k") == "Field" and x["name"] in ("start",) for x in hir.nodes(sd)) for sd in sides]
+            if (has_ref[0] and has_rng[1]) or (has_ref[1] and has_rng[0]):
+                rel = True
+    if advances:
+        out.add("parser::utility::affected", "a reused node still starts at its stored offset inside the enclosing Reference", rel,
+                c.loc(advances[0]["sp"]),
+                "the clone that is handed out keeps its old range, which is relative to the start of the enclosing Reference; nothing compares "
+                "`location - reference_pos` with it: when tokens in front of the node were removed from the same Reference (a deleted doc "
+                "comment) the node is aligned in the stream but its stored range is stale", ("relative",))
+    # ---- (recovery): the extent of a recovery region (ignore_until) depends on unboundedly many following tokens, the affected range of
+    # a node is bounded: a node that contains a syntax error is rebuilt, not reused - the reuse exit is only reached through the
+    # negation of a condition that inspects the node's ParseErrorMessage errors
+    if advances:
+        guard_ok = False
+        for b in scope:
+            defs = _let_defs(b["body"])
+            for x, parents in hir.walk(b["body"]):
+                if x is not advances[0]:
+                    continue
+                chain = list(parents) + [x]
+                for i_, pr in enumerate(chain[:-1]):
+                    if pr.get("k") != "If" or chain[i_ + 1] is not pr.get("else"):
+                        continue
+                    conds = [pr["cond"]]
+                    for pth in hir.nodes(pr["cond"], "Path"):
+                        pl = hir.path_local(pth)
+                        if pl and pl["id"] in defs:
+                            conds.append(defs[pl["id"]])
+                    for cd in conds:
+                        for m_ in hir.nodes(cd):
+                            pats = [a_["pat"] for a_ in m_["arms"]] if m_.get("k") == "Match" else [m_["pat"]] if m_.get("k") == "LetExpr" else []
+                            if any(v.endswith("ErrorMessage::ParseErrorMessage") for pt in pats for v in hir.pat_variants_all(pt)):
+                                guard_ok = True
+        out.add("parser::utility::affected", "a node that contains a syntax error is rebuilt, not reused", guard_ok, c.loc(advances[0]["sp"]),
+                "error recovery skips tokens up to the next synchronisation token, so the extent of an error node depends on any number "
+                "of following tokens, but a node is only rebuilt if the change touches its range (+1): `else` in front of `j := 2;` stays "
+                "a one-token error when the assignment behind it is destroyed, a fresh parse extends it", ("recovery",))
+    # ---- (alt): an alternative that is handed the old node must be able to report `Affected` to the caller; a catch-all recovery
+    # alternative behind it in the same alt(..) turns that report into an (empty) error node
+    rec_fns = set(rb["p"] for rb, _, _ in recovery_sites(prog))
+    n_alt = 0
+    for b in c.bodies:
+        f = c.file_of(b["sp"])
+        if not (f.endswith("parser.rs") or "/parser/" in f) or "/tests" in f:
+            continue
+        for call in hir.nodes(b["body"], "Call"):
+            if not (hir.callee(call) or "").endswith("nom::branch::alt") or not call["args"]:
+                continue
+            els = hir.strip(call["args"][0]).get("es", [])
+            has_rec = any((hir.path_def(hir.strip(e_)) or {}).get("p") in rec_fns for e_ in els)
+            if not has_rec:
+                continue
+
+            def hands_old_node(e_):
+                for x in hir.nodes(e_, "Call"):
+                    for a_ in x["args"]:
+                        a_ = hir.strip(a_)
+                        t_ = c.tstr(a_["t"]).replace(" ", "") if "t" in a_ else ""
+                        if t_.startswith("std::option::Option<&") and "ast::" in t_ or t_.startswith("std::option::Option<&parser::"):
+                            is_none = a_.get("k") == "Path" and last(a_["res"].get("ctor_of", "")) == "None"
+                            if not is_none:
+                                return True
+                return False
+
+            inc_alts = [e_ for e_ in els if hands_old_node(e_)]
+            n_alt += 1
+            out.add(b["d"], "no recovery alternative behind an alternative that is handed the old node", not inc_alts, c.loc(call["sp"]),
+                    "`alt((<parser with this>, <recovery>))`: when the old node cannot be rebuilt the first alternative fails with `Affected`, "
+                    "alt() then takes the recovery alternative, which succeeds without consuming anything: an empty error node replaces a "
+                    "valid declaration (a no-op edit inside a documented parameter produces five syntax errors)", ("alt",))
+    if n_alt == 0:
+        out.missing("alt(..) with a recovery alternative in the parser")
     # ---- (input)
     # functions that build an Affected error from one of their parameters
     builders = {}
@@ -1322,4 +1432,121 @@ def rule_reuse(prog):
                     "the wrong place" % ("only then too" if guarded(ps) else "always"), ("pairing",))
     if n_pp == 0:
         out.missing("inc_references push/pop sites")
+    return out
+
+
+# ------------------------------------------------------------------ ERROR-OWNER
+
+def rule_error_owner(prog):
+    """`expect(..)` reports a missing construct by pushing an error into the token stream's error buffer; the nearest enclosing
+    `info(..)` wrapper moves the buffer into the node it builds.  Nodes are reused per *reuse unit* (`<N as Parser>::parse`,
+    guarded by `affected(this, ..)`): an error pushed inside a unit but outside every `info(..)` of that unit lands in the
+    *enclosing* node - when that node is rebuilt and the unit is reused unchanged, nothing pushes the error again and it is
+    lost.  So inside a unit every `expect` is under an `info(..)` (lexically, or through the unit's local call graph), or the
+    unit refuses reuse for nodes that reported outward (its `this` is filtered on the node's Error variant)."""
+    out = Out("ERROR-OWNER")
+    c = prog.front
+    INFO = "spl_frontend::parser::utility::info"
+    EXPECT = "spl_frontend::parser::utility::expect"
+    AFFECTED = "spl_frontend::parser::utility::affected"
+    units = {}
+    for b in c.bodies:
+        f = c.file_of(b["sp"])
+        if not (f.endswith("parser.rs") or "/parser/" in f) or "/tests" in f or b["k"] == "closure":
+            continue
+        if " as parser::Parser>::parse" in b["d"]:
+            root = b["d"].split(">::parse")[0] + ">::parse"
+            units.setdefault(root, []).append(b)
+    if len(units) < 10:
+        out.missing("Parser impls in parser.rs (found %d)" % len(units))
+        return out
+    n = 0
+    for root, bs in sorted(units.items()):
+        names = {b["p"]: b for b in bs}
+
+        def under_info(parents):
+            return any(q.get("k") == "Call" and (hir.callee(q) or "") == INFO for q in parents)
+
+        refs = {p_: [] for p_ in names}
+        for b in bs:
+            for x, parents in hir.walk(b["body"]):
+                if x.get("k") == "Path" and x["res"].get("k") == "Def" and x["res"].get("p") in names and x["res"]["p"] != b["p"]:
+                    refs[x["res"]["p"]].append((b["p"], under_info(parents)))
+        memo = {}
+
+        def covered(fp, seen=()):
+            if fp in memo:
+                return memo[fp]
+            if fp in seen:
+                return True
+            rs = refs.get(fp, [])
+            r = bool(rs) and all(cov or covered(caller, seen + (fp,)) for caller, cov in rs)
+            memo[fp] = r
+            return r
+
+        leaks = []
+        for b in bs:
+            for x, parents in hir.walk(b["body"]):
+                if x.get("k") == "Call" and (hir.callee(x) or "") == EXPECT:
+                    n += 1
+                    if not under_info(parents) and not covered(b["p"]):
+                        leaks.append((b, x))
+        if not leaks:
+            out.add(root, "errors reported inside the unit are owned by a node of the unit", True, c.loc(bs[0]["sp"]), "")
+            continue
+        # the unit may still be sound if no `affected(..)` entry for its node type ever reuses a node that reported outward:
+        # `this` is filtered, or the match arm that calls affected() is guarded, by a predicate that inspects the Error variant
+        node_t = None
+        for b in bs:
+            if "impl_self" in b:
+                st_ = c.ty(b["impl_self"])
+                if st_["k"] == "adt":
+                    node_t = st_["p"]
+
+        def inspects_error(node):
+            for m_ in hir.nodes_deep(prog, node, 2, crate=c):
+                pats = [a_["pat"] for a_ in m_["arms"]] if m_.get("k") == "Match" else [m_["pat"]] if m_.get("k") == "LetExpr" else []
+                if any(v.endswith("::Error") and v.startswith("spl_frontend::ast::") for pt in pats for v in hir.pat_variants_all(pt)):
+                    return True
+            return False
+
+        entries = []
+        for ob in c.bodies:
+            f_ = c.file_of(ob["sp"])
+            if not (f_.endswith("parser.rs") or "/parser/" in f_) or "/tests" in f_ or ob["k"] == "closure":
+                continue
+            for call, parents in hir.walk(ob["body"]):
+                if call.get("k") != "Call" or (hir.callee(call) or "") != AFFECTED or not call["args"]:
+                    continue
+                a0 = hir.strip(call["args"][0])
+                t0 = hir.peel(c, a0["t"]) if "t" in a0 else {}
+                inner = None
+                if t0.get("k") == "adt" and t0["p"].endswith("option::Option") and t0.get("a"):
+                    it = hir.peel(c, int(t0["a"][0])) if str(t0["a"][0]).isdigit() else {}
+                    inner = it.get("p") if it.get("k") == "adt" else None
+                if inner != node_t or node_t is None:
+                    continue
+                ok_entry = False
+                pl = hir.path_local(a0)
+                src = a0
+                if pl:
+                    for l in hir.nodes(ob["body"], "Let"):
+                        if l["pat"].get("k") == "Binding" and l["pat"]["id"] == pl["id"] and l.get("init") is not None:
+                            src = hir.strip(l["init"])
+                if src.get("k") == "MethodCall" and src["m"] == "filter" and src["args"] and inspects_error(src["args"][0]):
+                    ok_entry = True
+                for pr in parents:
+                    if pr.get("k") == "Arm" and pr.get("guard") is not None and inspects_error(pr["guard"]):
+                        ok_entry = True
+                entries.append((ob, call, ok_entry))
+        refuses = bool(entries) and all(e_[2] for e_ in entries)
+        bad_entry = [e_ for e_ in entries if not e_[2]]
+        for b, x in leaks:
+            out.add(root, "errors reported inside the unit are owned by a node of the unit (or such nodes are never reused)", refuses,
+                    c.loc(x["sp"]), "`expect(..)` in `%s` pushes its error outside every `info(..)` of %s: the error is collected by "
+                    "the enclosing node; if that node is rebuilt while this one is reused unchanged, the error disappears (an edit that "
+                    "does not even touch the expression removes a diagnostic)%s" % (b["name"], root,
+                        "; unguarded reuse entry: affected(..) in %s" % bad_entry[0][0]["d"] if bad_entry else ""))
+    if n < 30:
+        out.missing("expect(..) calls in the parser (found %d)" % n)
     return out
